@@ -243,6 +243,23 @@ func genOtherPacket(t *rapid.T, avoid int) []byte {
 	}
 	p.AFC = 1
 	p.Payload = genBytes(t, 184, 184, "other-payload")
+	if rapid.IntRange(0, 2).Draw(t, "other-shaped") == 0 {
+		// a complete, CRC-correct program association section at a unit start (on PID 0 it is the stream's PAT): it lists
+		// another PID only, the PID under test, or nothing
+		pat := ref.PAT{TSID: 1, Version: 1, CurrentNext: true}
+		switch rapid.IntRange(0, 2).Draw(t, "other-pat-kind") {
+		case 0:
+			pat.Entries = []ref.PATEntry{{Program: 1, PID: (avoid + 5) & 0x1FFF}}
+		case 1:
+			pat.Entries = []ref.PATEntry{{Program: 1, PID: avoid}, {Program: 2, PID: (avoid + 6) & 0x1FFF}}
+		}
+		pl := append([]byte{0}, pat.Section()...)
+		for len(pl) < 184 {
+			pl = append(pl, 0xFF)
+		}
+		p.PUSI = true
+		p.Payload = pl
+	}
 	b := p.MustBytes()
 	return b[:]
 }
